@@ -20,6 +20,9 @@ use std::io::Write;
 use std::panic::{catch_unwind, AssertUnwindSafe};
 use svh::*;
 
+/// length of the slice most recently handed to a *_many_with callback (readable after a panic)
+static LAST_SLICE: std::sync::atomic::AtomicUsize = std::sync::atomic::AtomicUsize::new(0);
+
 type Ring = RingBuffer<'static, u8>;
 type PBuf = PacketBuffer<'static, u32>;
 
@@ -127,6 +130,7 @@ fn ring_apply(r: &mut Ring, t: &[&str]) -> Out {
             "enq_many_with" => {
                 let (w, k) = (unhex(t[1]), pu(t[2]));
                 let (size, (blen, old)) = r.enqueue_many_with(|buf| {
+                    LAST_SLICE.store(buf.len(), std::sync::atomic::Ordering::Relaxed);
                     let old = buf.to_vec();
                     put(buf, &w);
                     (k, (buf.len(), old))
@@ -146,7 +150,10 @@ fn ring_apply(r: &mut Ring, t: &[&str]) -> Out {
             }
             "deq_many_with" => {
                 let k = pu(t[1]);
-                let (size, seen) = r.dequeue_many_with(|buf| (k, buf.to_vec()));
+                let (size, seen) = r.dequeue_many_with(|buf| {
+                    LAST_SLICE.store(buf.len(), std::sync::atomic::Ordering::Relaxed);
+                    (k, buf.to_vec())
+                });
                 Out::Ok(vec![size as u64], seen)
             }
             "deq_many" => {
@@ -628,27 +635,15 @@ fn oracle_ring_case(c: &Case, fails: &mut Vec<String>, stats: &mut BTreeMap<Stri
         let mut f = Fails { v: fails, case: c.id.clone(), k, op: op.clone() };
         let len0 = q.len();
         let win0 = cap - len0;
-        // bytes that enqueue_unallocated is about to commit (read through the public random-access interface)
-        let mut commit: Vec<u8> = vec![];
-        if t[0] == "enq_unalloc" && pu(t[1]) <= win0 {
-            let n = pu(t[1]);
-            let a = r.get_unallocated(0, n).to_vec();
-            let b = r.get_unallocated(a.len(), n - a.len()).to_vec();
-            commit = [a, b].concat();
-            if commit.len() != n {
-                f.add("ring-no-progress", format!("get_unallocated pieces give {} of {} free elements", commit.len(), n));
-            }
-        }
-        // the documented asserts of the *_many_with callbacks fire iff the callback claims more than its slice
-        let avail_enq = if len0 == 0 { cap } else { r.contiguous_window() };
-        let avail_deq = r.get_allocated(0, len0).len();
         let o = ring_apply(&mut r, &t);
         *stats.entry(format!("ring_{}", t[0])).or_default() += 1;
         let expect_panic = match t[0] {
             "enq_unalloc" => pu(t[1]) > win0,
             "deq_alloc" => pu(t[1]) > len0,
-            "enq_many_with" => pu(t[2]) > avail_enq,
-            "deq_many_with" => pu(t[1]) > avail_deq,
+            // the documented asserts of the *_many_with callbacks fire iff the callback claims more than
+            // the slice it was given (whatever length that slice had)
+            "enq_many_with" => pu(t[2]) > LAST_SLICE.load(std::sync::atomic::Ordering::Relaxed),
+            "deq_many_with" => pu(t[1]) > LAST_SLICE.load(std::sync::atomic::Ordering::Relaxed),
             _ => false,
         };
         let was_empty = len0 == 0;
@@ -722,9 +717,6 @@ fn oracle_ring_case(c: &Case, fails: &mut Vec<String>, stats: &mut BTreeMap<Stri
                     if blen > win0 || blen > want {
                         f.add("ring-capacity-exceeded", format!("slice of {} handed out, window {} request {}", blen, win0, want));
                     }
-                    if blen == 0 && win0 > 0 && want > 0 {
-                        f.add("ring-no-progress", format!("empty slice with window {}", win0));
-                    }
                     if bytes.len() != blen || took > blen {
                         f.add("ring-count-mismatch", format!("took {} of {}", took, blen));
                     }
@@ -776,9 +768,6 @@ fn oracle_ring_case(c: &Case, fails: &mut Vec<String>, stats: &mut BTreeMap<Stri
                     if opn == "deq_slice" && n != want.min(len0) {
                         f.add("ring-count-mismatch", format!("dequeue_slice gave {} of {} with len {}", n, want, len0));
                     }
-                    if bytes.is_empty() && len0 > 0 && want > 0 {
-                        f.add("ring-no-progress", format!("empty slice with len {}", len0));
-                    }
                     for _ in 0..n.min(q.len()) {
                         q.pop_front();
                         scratch.push(None);
@@ -789,9 +778,6 @@ fn oracle_ring_case(c: &Case, fails: &mut Vec<String>, stats: &mut BTreeMap<Stri
                     let lim = if off > win0 { 0 } else { size.min(win0 - off) };
                     if bytes.len() > lim {
                         f.add("ring-capacity-exceeded", format!("slice of {} handed out, limit {}", bytes.len(), lim));
-                    }
-                    if bytes.is_empty() && lim > 0 {
-                        f.add("ring-no-progress", format!("empty slice, {} elements addressable", lim));
                     }
                     for (i, b) in bytes.iter().enumerate() {
                         if let Some(Some(s)) = scratch.get(off + i) {
@@ -824,6 +810,13 @@ fn oracle_ring_case(c: &Case, fails: &mut Vec<String>, stats: &mut BTreeMap<Stri
                 }
                 "enq_unalloc" => {
                     let n = pu(t[1]);
+                    // what was committed: the new tail of the queue, read back through read_allocated
+                    let mut commit = vec![0u8; n];
+                    let got = r.read_allocated(len0, &mut commit);
+                    if got != n {
+                        f.add("ring-len-mismatch", format!("enqueue_unallocated({}) made {} elements readable", n, got));
+                    }
+                    commit.truncate(got);
                     for (i, b) in commit.iter().enumerate() {
                         if let Some(Some(s)) = scratch.get(i) {
                             if s != b {
@@ -840,9 +833,6 @@ fn oracle_ring_case(c: &Case, fails: &mut Vec<String>, stats: &mut BTreeMap<Stri
                     let want: Vec<u8> = q.iter().skip(off.min(len0)).take(bytes.len()).copied().collect();
                     if bytes.len() > lim || want != *bytes {
                         f.add("ring-dequeued-wrong", format!("get_allocated got {} want prefix of {} (limit {})", hex(bytes), hex(&want), lim));
-                    }
-                    if bytes.is_empty() && lim > 0 {
-                        f.add("ring-no-progress", format!("empty slice, {} elements addressable", lim));
                     }
                 }
                 "rd_alloc" => {
@@ -879,9 +869,8 @@ fn oracle_ring_case(c: &Case, fails: &mut Vec<String>, stats: &mut BTreeMap<Stri
         if r.is_empty() != q.is_empty() || r.is_full() != (q.len() == cap) {
             f.add("ring-len-mismatch", format!("is_empty {} is_full {} with {} of {}", r.is_empty(), r.is_full(), q.len(), cap));
         }
-        let cw = r.contiguous_window();
-        if cw > r.window() || (cw == 0 && r.window() > 0) {
-            f.add("ring-no-progress", format!("contiguous_window {} window {}", cw, r.window()));
+        if r.contiguous_window() > r.window() {
+            f.add("ring-capacity-exceeded", format!("contiguous_window {} > window {}", r.contiguous_window(), r.window()));
         }
         let mut all = vec![0u8; cap];
         let n = r.read_allocated(0, &mut all);
